@@ -67,6 +67,7 @@ impl AtomicIncrementalAverage64 {
     /// gets the latest, synchronized `counter` and `average` values\
     /// -- most likely you don't need these -- slightly heavier -- synchronization guarantees: consider using [lightweight_probe()]
     pub fn probe(&self) -> (u32, f32) {
+        vp!("ia.probe");
         AtomicIncrementalAverage64::split_joined(unsafe {&self.joined}.load(Relaxed))
     }
 
@@ -113,11 +114,13 @@ impl AtomicIncrementalAverage64 {
     /// -- and the new values it returns will replace the ones passed as parameters
     fn atomic_compute(&self, load_ordering: Ordering, store_ordering: Ordering, computation: impl Fn(u32, f32) -> (u32, f32)) {
         unsafe {
+            vp!("ia.load");
             let mut current_joined = self.joined.load(load_ordering);
             loop {
                 let (current_counter, current_average) = AtomicIncrementalAverage64::split_joined(current_joined);
                 let (new_counter, new_average) = computation(current_counter, current_average);
                 let new_joined = AtomicIncrementalAverage64::join_split(new_counter, new_average);
+                vp!("ia.cas", current_joined);
                 match self.joined.compare_exchange(current_joined, new_joined, store_ordering, load_ordering) {
                     Err(reloaded_current_joined) => current_joined = reloaded_current_joined,
                     Ok(_) => break,
